@@ -57,8 +57,7 @@ type listener struct {
 func (l *listener) Accept() (net.Conn, error) {
 	select {
 	case c := <-l.acceptCh:
-		l.connWG.Add(1)
-
+		// c holds its reference on the socket since it was queued
 		return c, nil
 
 	case <-l.readDoneCh:
@@ -87,6 +86,7 @@ func (l *listener) Close() error {
 			case c := <-l.acceptCh:
 				close(c.doneCh)
 				delete(l.conns, c.rAddr.String())
+				l.connWG.Done()
 
 			default:
 				break lclose
@@ -285,10 +285,15 @@ func (l *listener) getConn(raddr net.Addr, buf []byte) (*Conn, bool, error) {
 			}
 		}
 		conn = l.newConn(raddr)
+		// A queued connection already counts as a user of the socket: Accept may
+		// hand it out while Close drops the listener's own reference.
+		l.connWG.Add(1)
 		select {
 		case l.acceptCh <- conn:
 			l.conns[raddr.String()] = conn
 		default:
+			l.connWG.Done()
+
 			return nil, false, ErrListenQueueExceeded
 		}
 	}
